@@ -15,8 +15,12 @@ import Batteries.Data.List.Perm
                               failing push): with fuel `|fs| + 2` the model never runs out of fuel
   * `cycle_reported_real`     both together: the recorded event is a genuine error (cycle or missing file)
 
-  Not proved here: the "imports behave like inlining" clause (checked per run: compile(file set) = compile(inline
-  file set) with `inline` a Lean function, both through the real compiler).
+  * `C14_import_is_inline_partial` (flat fragment: objects with attributes and deletions, every file's imports at the top
+                              of the file) compiling the imported file in its own map and overlaying it gives the
+                              board of the inlined declarations (`overlay_empty`: overlaying onto an empty map copies)
+
+  Beyond that fragment the "imports behave like inlining" clause is checked per run: compile(file set) =
+  compile(inline file set) with `inline` a Lean function, both through the real compiler.
 -/
 namespace D2V.Import
 
@@ -266,3 +270,140 @@ example : walk (fuelFor fs2) fs2 "index.d2" =
 
 example : normalise ["index.d2", "sub/x.d2"] "../y" = "y.d2" := by decide
 end D2V.Import
+
+/-! ### the inlining clause on the flat fragment -/
+namespace D2V.ImportFlat
+open D2V.Boards
+
+def names (c : Content) : List String := c.map (·.1)
+
+theorem has_iff (c : Content) (n : String) : c.has n = true ↔ n ∈ names c := by
+  simp only [Content.has, List.any_eq_true, names, List.mem_map, beq_iff_eq]
+
+theorem has_false_iff (c : Content) (n : String) : c.has n = false ↔ n ∉ names c := by
+  rw [← has_iff]; simp
+
+/-- overlaying onto a map that shares no name with the overlay just appends it -/
+theorem overlay_disjoint : ∀ (m base : Content), (names m).Nodup → (∀ n ∈ names m, n ∉ names base) →
+    overlay base m = base ++ m
+  | [], base, _, _ => by simp [overlay]
+  | (n, a) :: rest, base, hnd, hdis => by
+    have hn : base.has n = false := (has_false_iff base n).mpr (hdis n (by simp [names]))
+    simp only [names, List.map_cons, List.nodup_cons] at hnd
+    simp only [overlay, hn, Bool.false_eq_true, if_false]
+    rw [overlay_disjoint rest (base ++ [(n, a)]) hnd.2]
+    · simp
+    · intro k hk
+      simp only [names, List.map_append, List.map_cons, List.map_nil, List.mem_append, List.mem_singleton, not_or]
+      refine ⟨hdis k (by simp [names]; right; simpa [names] using hk), ?_⟩
+      intro hkn
+      subst hkn
+      exact hnd.1 (by simpa [names] using hk)
+
+theorem overlay_empty (m : Content) (h : (names m).Nodup) : overlay [] m = m := by
+  simpa using overlay_disjoint m [] h (by simp [names])
+
+theorem names_map_same (c : Content) (f : String × Attrs → String × Attrs) (hf : ∀ e, (f e).1 = e.1) :
+    names (c.map f) = names c := by
+  simp [names, List.map_map, Function.comp_def, hf]
+
+theorem applyOp_nodup (c : Content) (o : Op) (h : (names c).Nodup) : (names (applyOp c o)).Nodup := by
+  cases o with
+  | decl n =>
+    simp only [applyOp]
+    split
+    · exact h
+    · rename_i hn
+      have hn' : n ∉ names c := (has_false_iff c n).mp (by simpa using hn)
+      simp only [names, List.map_append, List.map_cons, List.map_nil]
+      rw [List.nodup_append]
+      refine ⟨h, by simp, ?_⟩
+      intro a ha b hb
+      simp only [List.mem_singleton] at hb
+      subst hb
+      intro hab
+      exact hn' (hab ▸ ha)
+  | set n k v =>
+    simp only [applyOp]
+    split
+    · rw [names_map_same]
+      · exact h
+      · intro e
+        split
+        · rename_i he; simp only [beq_iff_eq] at he; exact he.symm
+        · rfl
+    · rename_i hn
+      have hn' : n ∉ names c := (has_false_iff c n).mp (by simpa using hn)
+      simp only [names, List.map_append, List.map_cons, List.map_nil]
+      rw [List.nodup_append]
+      refine ⟨h, by simp, ?_⟩
+      intro a ha b hb
+      simp only [List.mem_singleton] at hb
+      subst hb
+      intro hab
+      exact hn' (hab ▸ ha)
+  | del n =>
+    simp only [applyOp, names]
+    exact (List.Nodup.sublist (List.Sublist.map _ List.filter_sublist) h)
+
+theorem applyOps_nodup : ∀ (ops : List Op) (c : Content), (names c).Nodup → (names (applyOps c ops)).Nodup
+  | [], c, h => by simpa [applyOps] using h
+  | o :: rest, c, h => by
+    have := applyOps_nodup rest (applyOp c o) (applyOp_nodup c o h)
+    simpa [applyOps] using this
+
+theorem applyOps_append (c : Content) (a b : List Op) : applyOps c (a ++ b) = applyOps (applyOps c a) b := by
+  simp [applyOps, List.foldl_append]
+
+def noSpread : List FItem → Bool
+  | [] => true
+  | .op _ :: r => noSpread r
+  | .spread _ :: _ => false
+
+/-- imports only "at the top of the file" -/
+def topOnly : List FItem → Bool
+  | .spread _ :: r => noSpread r
+  | l => noSpread l
+
+def opsOf : List FItem → List Op
+  | [] => []
+  | .op o :: r => o :: opsOf r
+  | .spread _ :: r => opsOf r
+
+theorem evalF_noSpread : ∀ (items : List FItem) (n : Nat) (fs : Files) (dst : Content), noSpread items = true →
+    evalF n fs items dst = applyOps dst (opsOf items) ∧ inlineF n fs items = opsOf items
+  | [], n, fs, dst, _ => by simp [evalF, inlineF, opsOf, applyOps]
+  | .op o :: r, n, fs, dst, h => by
+    have ih := evalF_noSpread r n fs (applyOp dst o) (by simpa [noSpread] using h)
+    simp [evalF, inlineF, opsOf, applyOps, ih.1, ih.2]
+  | .spread _ :: _, _, _, _, h => by simp [noSpread] at h
+
+/-- **C14_import_is_inline (flat fragment, imports at the top of files)**: compiling a file whose import sits at the
+    top — the imported file being compiled in its own map and overlaid — gives the same board as compiling the
+    inlined declarations -/
+theorem C14_import_is_inline_partial : ∀ (n : Nat) (fs : Files) (items : List FItem),
+    (∀ f ∈ fs, topOnly f = true) → topOnly items = true →
+    evalF n fs items [] = applyOps [] (inlineF n fs items)
+  | n, fs, [], _, _ => by simp [evalF, inlineF, applyOps]
+  | n, fs, .op o :: r, _, ht => by
+    have hr : noSpread (.op o :: r) = true := by simpa [topOnly] using ht
+    have := evalF_noSpread (.op o :: r) n fs [] hr
+    rw [this.1, this.2]
+  | 0, fs, .spread i :: r, _, _ => by simp [evalF, inlineF, applyOps]
+  | n + 1, fs, .spread i :: r, hfs, ht => by
+    have hr : noSpread r = true := by simpa [topOnly] using ht
+    have hfile : topOnly (fs.getD i []) = true := by
+      by_cases hi : i < fs.length
+      · have : fs.getD i [] = fs[i] := by simp [List.getD, hi]
+        rw [this]
+        exact hfs _ (List.getElem_mem hi)
+      · have : fs.getD i [] = [] := by simp [List.getD, hi]
+        rw [this]; rfl
+    have ih := C14_import_is_inline_partial n fs (fs.getD i []) hfs hfile
+    have hnd : (names (evalF n fs (fs.getD i []) [])).Nodup := by
+      rw [ih]; exact applyOps_nodup _ [] (by simp [names])
+    simp only [evalF, inlineF]
+    rw [overlay_empty _ hnd, (evalF_noSpread r (n + 1) fs _ hr).1, (evalF_noSpread r (n + 1) fs [] hr).2, ih,
+      applyOps_append]
+
+end D2V.ImportFlat
